@@ -321,3 +321,53 @@ fn c13_checked_float_ctor() {
     forget(r);
     forget(rt);
 }
+
+/// site floats.rs `neg`: the operand is the payload of a Float value (finite by the invariant);
+/// negation of a finite f64 is finite.
+#[kani::proof]
+fn c13_neg_preserves_finiteness() {
+    let a: f64 = kani::any();
+    kani::assume(a.is_finite());
+    assert!((-a).is_finite(), "negation of a finite float is finite");
+    kani::cover!(a < 0.0, "domain not empty");
+}
+
+// ---------------------------------------------------------------- C09: managed error values
+use crate::xvalue::ManagedXError;
+
+/// ManagedXError::new(msg) then drop:  Ok(e) => the accounted total grew by at least the payload
+/// and stays within the limit, and dropping e restores the baseline exactly;
+/// Err(violation) => nothing stays accounted (the baseline is restored immediately).
+#[kani::proof]
+#[kani::unwind(6)]
+#[kani::stub(std::hash::RandomState::new, const_random_state)]
+fn c09_managed_error_new_and_drop() {
+    let limit = any_limit();
+    let size: usize = kani::any();
+    kani::assume(size <= usize::MAX - 4096); // PRE: the accounted total is representable
+    let rt = mk(RuntimeLimits {
+        size_limit: limit,
+        ..Default::default()
+    });
+    rt.stats.borrow_mut().size = AllocatedMemory(size);
+    let r = ManagedXError::new("abc", rt.clone());
+    let after = rt.stats.borrow().size.0;
+    match r {
+        Ok(e) => {
+            if let Some(m) = limit {
+                assert!(after >= size + 3, "a live error value is accounted for at least its payload");
+                assert!(after <= m, "live values never exceed the limit");
+            } else {
+                assert!(after == size, "no limit: nothing is accounted");
+            }
+            drop(e);
+            assert!(rt.stats.borrow().size.0 == size, "dropping the error value returns its bytes exactly");
+        }
+        Err(v) => {
+            assert!(limit.is_some(), "no limit: construction never fails");
+            assert!(after == size, "a failed construction leaves nothing accounted");
+            forget(v);
+        }
+    }
+    forget(rt);
+}
